@@ -290,6 +290,16 @@ func (g *Gen) on(f string) bool { return g.feat[f] }
 
 var genStrLits = []string{"a", "k", "k0", "k00", "v", "val", "x", "abc", "Hello", "1", "12", "", "zz", ",", "-", "k005", "b"}
 
+var genStrLitsBytes = append(append([]string{}, genStrLits...), "k\xff", "k\xfe", "\xff", "u\xe4\xb8", "u\xe4\xba", "k\x00", "k\xff0", "\x80")
+
+// strLits: the literal pool; byte-keyed stores get byte literals as well.
+func (g *Gen) strLits() []string {
+	if g.style == StoreBytes {
+		return genStrLitsBytes
+	}
+	return genStrLits
+}
+
 func lit(s string) *GExpr { return &GExpr{Kind: "str", T: TS, S: s} }
 func ilit(n int) *GExpr {
 	return &GExpr{Kind: "int", T: TN, S: strconv.Itoa(n), NK: "i"}
@@ -341,7 +351,7 @@ func (g *Gen) tryAlias(t GType, ctx string) *GExpr {
 
 func (g *Gen) field() *GExpr {
 	if g.noKey && g.noValue {
-		return lit(pick(g.r, genStrLits))
+		return lit(pick(g.r, g.strLits()))
 	}
 	if g.noValue || (!g.noKey && g.r.Chance(0.4)) {
 		return &GExpr{Kind: "key", T: TS}
@@ -358,7 +368,7 @@ func (g *Gen) S(d int, ctx string) *GExpr {
 		if r.Chance(0.6) {
 			return g.field()
 		}
-		return lit(pick(r, genStrLits))
+		return lit(pick(r, g.strLits()))
 	}
 	for tries := 0; tries < 4; tries++ {
 		switch r.Intn(9) {
@@ -560,7 +570,7 @@ func (g *Gen) boolAtom(d int) *GExpr {
 				op := pick(r, []string{"=", "!=", ">", ">=", "<", "<="})
 				a, b := g.S(d-1, "op"), g.S(d-1, "op")
 				if (a.Kind == "key" || a.Kind == "value") && a.Kind == b.Kind {
-					b = lit(pick(r, genStrLits))
+					b = lit(pick(r, g.strLits()))
 				}
 				return bin(TB, op, a, b)
 			}
@@ -594,7 +604,7 @@ func (g *Gen) boolAtom(d int) *GExpr {
 							// an alias inside a function call that is an IN-list item
 							args = append(args, call(TS, pick(r, []string{"lower", "upper", "str"}), a))
 						} else {
-							args = append(args, lit(pick(r, genStrLits)))
+							args = append(args, lit(pick(r, g.strLits())))
 						}
 					}
 					return &GExpr{Kind: "in", T: TB, Op: "list", Args: args}
@@ -622,7 +632,7 @@ func (g *Gen) boolAtom(d int) *GExpr {
 					return &GExpr{Kind: "between", T: TB, Args: []*GExpr{g.N(d-1, "op"), g.N(d-1, "op"), g.N(d-1, "op")}}
 				}
 				if r.Bool() {
-					lo, hi := pick(r, genStrLits), pick(r, genStrLits)
+					lo, hi := pick(r, g.strLits()), pick(r, g.strLits())
 					if lo > hi {
 						lo, hi = hi, lo
 					}
@@ -914,7 +924,7 @@ func (g *Gen) Select(wantAlias bool) *GSelect {
 		var atom *GExpr
 		switch a.t {
 		case TS:
-			atom = bin(TB, pick(r, []string{"!=", ">=", "^="}), ref, lit(pick(r, genStrLits)))
+			atom = bin(TB, pick(r, []string{"!=", ">=", "^="}), ref, lit(pick(r, g.strLits())))
 		case TN:
 			ops := []string{">", "<="}
 			if a.nk == "i" {
